@@ -675,7 +675,8 @@ def ruleenum(rep, meta, g, sfx):
 def unescaped(rep, meta, sfx):
     r = rep.rule("C07.UNESCAPED" + sfx, 4,
                  "every literal stored in the AST (Str, Insens, Range bounds, PushLiteral) is the result of the escape "
-                 "decoder: sibling terminal arms agree on decoding")
+                 "decoder, not rewritten afterwards (no case mapping, replacement or trimming between the decoder and "
+                 "the AST): sibling terminal arms agree on decoding")
     # the decoder family: fns of the parser module that (transitively) reach the fn with the escape table
     cg = hirq.CallGraph([meta])
     base = [b["path"] for b in meta.bodies if b["path"].startswith("pest_meta::parser::") and b.get("output", "").startswith("core::option::Option<alloc::string::String")
@@ -709,9 +710,15 @@ def unescaped(rep, meta, sfx):
                     r.instance(key, where(x))
                     if not ok:
                         r.violation(key, where(x),
-                                    "the %s literal stored in the AST (`%s`) does not come from the escape decoder: its "
-                                    "escapes are kept verbatim while the same spelling in a sibling literal is decoded"
+                                    "the %s literal stored in the AST (`%s`) is not exactly the output of the escape "
+                                    "decoder (not decoded at all, or rewritten after decoding): what is read back differs "
+                                    "from the literal that was written"
                                     % (v, hirq.expr_text(x["args"][ai])))
+
+
+ALTERS_TEXT = {"to_lowercase", "to_uppercase", "to_ascii_lowercase", "to_ascii_uppercase", "replace", "replacen", "trim",
+               "trim_start", "trim_end", "repeat", "escape_default", "escape_debug", "escape_unicode", "to_lower",
+               "to_upper"}
 
 
 def decoded(a, lets, family, depth=0):
@@ -724,6 +731,8 @@ def decoded(a, lets, family, depth=0):
     if k == "Match" and a.get("src") == "try":
         return decoded(a["scrut"]["args"][0], lets, family, depth + 1) if kind(a["scrut"]) == "Call" else False
     if k == "MethodCall":
+        if a["m"] in ALTERS_TEXT:
+            return False        # decoded, then rewritten: what is stored is no longer the literal that was written
         return decoded(a["recv"], lets, family, depth + 1)
     if k == "Index":
         return decoded(a["base"], lets, family, depth + 1)
@@ -927,7 +936,8 @@ def rejects(rep, meta, sfx):
         # errors produced as values (`0 => Err(..)` in a helper that validates a bound, `.map_err(|_| ..)`)
         rets += [x for x in walk(fn["body"]) if kind(x) == "Call" and str(callee(x)).endswith("Result::Err") and id(x) not in inret
                  and not x.get("desugared") and not any("QuestionMark" in e_ or "?" == e_ for e_ in (x.get("exp") or []))
-                 and any(kind(y) == "Struct" or (kind(y) == "Call" and "Error" in str(callee(y))) for y in walk(x))]
+                 and (any(kind(y) == "Struct" or (kind(y) == "Call" and "Error" in str(callee(y))) for y in walk(x))
+                      or any(kind(y) == "Path" and y.get("res") == "local" and "Error<" in str(y.get("ty", "")) for y in walk(x)))]
         rets += [x for x in walk(fn["body"]) if kind(x) == "MethodCall" and x["m"] == "map_err"]
         if not rets:
             continue
